@@ -178,6 +178,45 @@ fn absorb(rep: &mut Report, out: &[u8], what: &str, extra_tags: &[String]) {
 
 pub fn run(tier: Tier, _replay: Option<Value>) -> ! {
     let mut rep = Report::new("C01", tier, "exploration");
+    let corpus_all: Vec<CorpusCase> = match tier {
+        Tier::Thorough => corpus::all_cases(tier),
+        Tier::Quick => {
+            let mut v: Vec<CorpusCase> = corpus::substitutions(tier).into_iter().filter(|c| c.tags.iter().filter(|t| t.starts_with("slot:")).count() <= 1).collect();
+            v.extend(corpus::mutations(tier).into_iter().filter(|c| !c.tags.iter().any(|t| t.starts_with("mut:rep@"))));
+            v.extend(corpus::nestings(8));
+            v
+        }
+    };
+    // The phases are independent and mostly wait on wall-clock caps: the bash pre-pass, the in-process
+    // execution and the real-binary runs proceed in the background while the parser/editor passes run.
+    let exec_cases: Vec<&CorpusCase> = corpus_all.iter().filter(|c| c.text.len() <= 150_000).collect();
+    let scripts: Vec<String> = exec_cases.iter().map(|c| c.text.clone()).collect();
+    let tmpl: Vec<&CorpusCase> = corpus_all.iter().filter(|c| c.tags.iter().any(|t| t == "default" || t.starts_with("nest:"))).filter(|c| c.text.len() < 100_000).collect();
+    let tmpl: Vec<&CorpusCase> = if tier == Tier::Quick { tmpl.into_iter().filter(|c| c.tags.iter().any(|t| t == "default") || c.tags.iter().filter(|t| t.starts_with("nest:")).count() == 1).collect() } else { tmpl };
+    let _ = procs::helper_dir();
+    let scripts_ref = &scripts;
+    let tmpl_ref = &tmpl;
+    std::thread::scope(|scope| {
+    let h_bash = scope.spawn(move || {
+        let bspecs: Vec<procs::ProcSpec> = scripts_ref.iter().map(|s| { let mut sp = bash::spec_file(bash::BASH, s, 2_000); sp.no_confirm = true; sp }).collect();
+        procs::run_many(&bspecs, (bash::procs_par() / 2).max(2))
+    });
+    let h_exec = scope.spawn(move || {
+        let jcases: Vec<Value> = scripts_ref.iter().enumerate().map(|(i, s)| json!({"s": s, "mode": if i % 2 == 0 { "file" } else { "dash-c" }})).collect();
+        let cfgx = PoolCfg::new("script").timeout_ms(3_000);
+        let bytes: Vec<Vec<u8>> = jcases.iter().map(|c| c.to_string().into_bytes()).collect();
+        pool::run(&cfgx, &bytes)
+    });
+    let h_real = scope.spawn(move || {
+        let brush = procs::brush_path();
+        let mut specs = vec![];
+        for c in tmpl_ref.iter() {
+            specs.push(bash::spec_file(&brush, &c.text, 4_000));
+            specs.push(bash::spec_dash_c(&brush, &c.text, 4_000));
+            specs.push(bash::spec_stdin(&brush, &c.text, 4_000));
+        }
+        procs::run_many(&specs, (bash::procs_par() / 2).max(2))
+    });
     // ---- (a) all strings through the parser entry points
     let max_len = tier.pick(4, 5);
     let cfg = PoolCfg::new("c01").timeout_ms(120_000);
@@ -191,15 +230,6 @@ pub fn run(tier: Tier, _replay: Option<Value>) -> ! {
     eprintln!("  [C01] phase a done at {:.1}s", rep.started.elapsed().as_secs_f64());
     rep.set("alphabet_bound", format!("length <= {max_len} over {} symbols", SIGMA1.len()));
     // ---- corpus through the parser entry points and the line-editor entry points
-    let corpus_all: Vec<CorpusCase> = match tier {
-        Tier::Thorough => corpus::all_cases(tier),
-        Tier::Quick => {
-            let mut v: Vec<CorpusCase> = corpus::substitutions(tier).into_iter().filter(|c| c.tags.iter().filter(|t| t.starts_with("slot:")).count() <= 1).collect();
-            v.extend(corpus::mutations(tier).into_iter().filter(|c| !c.tags.iter().any(|t| t.starts_with("mut:rep@"))));
-            v.extend(corpus::nestings(8));
-            v
-        }
-    };
     rep.set("corpus_cases", corpus_all.len() as u64);
     for (mode, what, chunk) in [("parse", "corpus-parse", 100usize), ("editor", "editor", 25usize)] {
         let lines: Vec<&CorpusCase> = corpus_all.iter().filter(|c| if mode == "parse" { c.text.len() <= 5000 } else { c.text.len() <= 200 }).collect();
@@ -239,22 +269,17 @@ pub fn run(tier: Tier, _replay: Option<Value>) -> ! {
     }
     // ---- (e) execution: in-process through run_script / run_dash_c_command
     // bash first: work that bash itself does not finish within the cap is not "bounded work"
-    let exec_cases: Vec<&CorpusCase> = corpus_all.iter().filter(|c| c.text.len() <= 150_000).collect();
-    let scripts: Vec<String> = exec_cases.iter().map(|c| c.text.clone()).collect();
-    let bspecs: Vec<procs::ProcSpec> = scripts.iter().map(|s| { let mut sp = bash::spec_file(bash::BASH, s, 2_000); sp.no_confirm = true; sp }).collect();
-    let bashr = procs::run_many(&bspecs, bash::procs_par());
+    let bashr = h_bash.join().expect("bash pre-pass");
     eprintln!("  [C01] bash pre-pass ({} scripts) done at {:.1}s", scripts.len(), rep.started.elapsed().as_secs_f64());
-    let jcases: Vec<Value> = scripts.iter().enumerate().map(|(i, s)| json!({"s": s, "mode": if i % 2 == 0 { "file" } else { "dash-c" }})).collect();
-    let cfgx = PoolCfg::new("script").timeout_ms(3_000);
-    let bytes: Vec<Vec<u8>> = jcases.iter().map(|c| c.to_string().into_bytes()).collect();
-    let outs = pool::run(&cfgx, &bytes);
+    let outs = h_exec.join().expect("exec phase");
     eprintln!("  [C01] exec done at {:.1}s", rep.started.elapsed().as_secs_f64());
     let mut bash_unbounded = 0u64;
     for (i, o) in outs.iter().enumerate() {
         rep.evaluations += 1;
         let c = exec_cases[i];
         let b = &bashr[i];
-        if b.timed_out {
+        if b.timed_out || b.signal.is_some() || b.status >= 128 {
+            // bash does not finish it either (or dies, e.g. a script that sources itself): not bounded work
             bash_unbounded += 1;
             continue;
         }
@@ -281,17 +306,8 @@ pub fn run(tier: Tier, _replay: Option<Value>) -> ! {
     rep.set("exec_cases", exec_cases.len() as u64);
     rep.set("exec_skipped_bash_did_not_finish", bash_unbounded);
     // ---- the real binary on all three front-ends for every default-rendered template and nesting
-    let tmpl: Vec<&CorpusCase> = corpus_all.iter().filter(|c| c.tags.iter().any(|t| t == "default" || t.starts_with("nest:"))).filter(|c| c.text.len() < 100_000).collect();
-    let tmpl: Vec<&CorpusCase> = if tier == Tier::Quick { tmpl.into_iter().filter(|c| c.tags.iter().any(|t| t == "default") || c.tags.iter().filter(|t| t.starts_with("nest:")).count() == 1).collect() } else { tmpl };
-    let brush = procs::brush_path();
-    let mut specs = vec![];
-    for c in &tmpl {
-        specs.push(bash::spec_file(&brush, &c.text, 4_000));
-        specs.push(bash::spec_dash_c(&brush, &c.text, 4_000));
-        specs.push(bash::spec_stdin(&brush, &c.text, 4_000));
-    }
-    let pr = procs::run_many(&specs, bash::procs_par());
-    eprintln!("  [C01] real binary ({} runs) done at {:.1}s", specs.len(), rep.started.elapsed().as_secs_f64());
+    let pr = h_real.join().expect("real binary phase");
+    eprintln!("  [C01] real binary ({} runs) done at {:.1}s", pr.len(), rep.started.elapsed().as_secs_f64());
     for (k, o) in pr.iter().enumerate() {
         rep.evaluations += 1;
         let c = tmpl[k / 3];
@@ -325,4 +341,5 @@ pub fn run(tier: Tier, _replay: Option<Value>) -> ! {
     rep.assumptions.push("scripts that bash itself does not finish within 2 s are treated as unbounded work and skipped (counted)".into());
     rep.assumptions.push("unbounded run-time recursion and astronomically large expansions are resource exhaustion, reported under tags huge-number/timeout".into());
     rep.finish()
+    })
 }
